@@ -219,6 +219,12 @@ func (store *Store) UpdateTransactionMetadata(ctx context.Context, id uint64, m 
 		store.updateTransactionMetadataHistogram,
 		func(ctx context.Context) (*ledger.Transaction, error) {
 
+			if m == nil {
+				// a nil map is sent as the jsonb scalar null, and `metadata || 'null'` turns the
+				// column into an array
+				m = metadata.Metadata{}
+			}
+
 			updateQuery := store.db.NewUpdate().
 				Model(&ledger.Transaction{}).
 				ModelTableExpr(store.GetPrefixedRelationName("transactions")).
